@@ -344,9 +344,10 @@ class FileBufferedCollection(BufferedCollection):
                 collection._flush(force=force)
             except (OSError, MetadataError) as err:
                 issues[collection._filename] = err
-        if not issues:
-            cls._buffered_collections = remaining_collections
-        else:
+        # Collections that are still buffered stay registered, also when some
+        # of the flushes failed (otherwise they would never be flushed).
+        cls._buffered_collections.update(remaining_collections)
+        if issues:
             raise BufferedError(issues)
 
     @classmethod
